@@ -153,7 +153,7 @@ theorem C07_e2e_stack (env : GEnv) (cfg : GCfg) (mem : Nat → UInt8) (idx n cur
     (⟨start, bytes.length, threadPos d k⟩ : Desc) ∈ (acc3 d).blocks ∧
     i.bytes (threadPos d k) bytes.length = some ((List.range bytes.length).map (fun j => mem (start + j))) := by
   intro i
-  obtain ⟨h1, h2, _, hc, _⟩ := E2E_stack_contains_sp env cfg mem idx n currPos isCrash sp ip m start bytes hp hw hr hf hs hsp
+  obtain ⟨h1, h2, _, hc, _⟩ := E2E_stack_contains_sp env cfg mem idx n currPos isCrash sp ip m start bytes hp hw (hr.within _ _) hf hs hsp
     (fun h => by rw [hns] at h; cases h) hg
   obtain ⟨_, _, _, hb, hmem⟩ := E2E_stack_in_image d k t start bytes hk hst hsz htid hstart
   refine ⟨h1, h2, hmem, ?_⟩
